@@ -115,7 +115,50 @@ fn invert(x: &View, target: i128) -> Option<i64> {
     (v.abs() <= i32::MAX as i128).then_some(v as i64)
 }
 
+/// Optimisation whose optimum is (next to) an extreme value of the objective: one or two variables
+/// with a handful of values at i32::MIN or i32::MAX, an optional linear side constraint, the
+/// objective a variable or its negated view, both directions and both procedures.
+fn fam_bigopt(seed: u64, index: u64) -> Scenario {
+    let mut rng = rng_for(seed, "bigopt", index);
+    let at_min = rng.gen_bool(0.5);
+    let mut steps = vec![];
+    let nv = rng.gen_range(1..=2u32);
+    for _ in 0..nv {
+        let k = rng.gen_range(0..=4) as i64;
+        let off = rng.gen_range(0..=1) as i64;
+        let (lo, hi) = if at_min {
+            (i32::MIN as i64 + off, i32::MIN as i64 + off + k)
+        } else {
+            (i32::MAX as i64 - off - k, i32::MAX as i64 - off)
+        };
+        steps.push(Step::NewVarRange { lo: lo as i32, hi: hi as i32 });
+    }
+    if nv == 2 && !at_min && rng.gen_bool(0.7) {
+        let c = if rng.gen_bool(0.5) {
+            Cons::LinNe { terms: vec![View::var(2), View { v: 3, s: -1, o: 0 }], rhs: 0 }
+        } else {
+            Cons::LinLe { terms: vec![View::var(2), View { v: 3, s: -1, o: 0 }], rhs: 0 }
+        };
+        steps.push(Step::Post { c, tag: None });
+    }
+    // (a negated view of a domain that contains i32::MIN has a value outside i32 - a precondition of
+    //  views - and maximisation negates the objective internally: at the lower extreme the objective
+    //  is the plain variable and it is minimised; see F47 in DESIGN.md)
+    let (obj, maximise) = if at_min {
+        (View::var(2), false)
+    } else {
+        (if rng.gen_bool(0.5) { View::var(2) } else { View { v: 2, s: -1, o: 0 } }, rng.gen_bool(0.5))
+    };
+    let br = BrSpec { kind: "indep".into(), var: 2, val: *[1u8, 4, 2].choose(&mut rng).unwrap() };
+    steps.push(Step::Optimise { br, maximise, lus: rng.gen_bool(0.5), obj, stop_at: Some(2000) });
+    Scenario { fam: "big".into(), id: index, opts: Opts::default(), steps, engine: false }
+}
+
 pub fn fam_big(seed: u64, _tier: &str, index: u64) -> Scenario {
+    // every eleventh scenario optimises at the extreme values
+    if index % 11 == 10 {
+        return fam_bigopt(seed, index);
+    }
     let rng = rng_for(seed, "big", index);
     let mut b = B {
         rng,
